@@ -19,6 +19,11 @@ pub enum Op {
     /// allocate `count` objects of `size` bytes; every `keep`-th is kept, linked through field 0
     /// into a list whose head goes into the lowest empty root slot of `m` (fragments the heap)
     Burst { m: u8, size: u32, count: u16, keep: u8 },
+    /// allocate a key object into the lowest empty root slot of `m` and a chain of `n` unrooted
+    /// values v1..vn with weak-table entries (key -> v1), (v1 -> v2), ... (needs n extra rounds)
+    EphChain { m: u8, n: u8 },
+    /// weak-table entry (roots[m][key] -> roots[m][value])
+    Eph { m: u8, key: u8, value: u8 },
     Drop { m: u8, slot: u8 },
     Gc { m: u8, full: bool },
     Pin { m: u8, slot: u8 },
@@ -34,6 +39,8 @@ impl Op {
             Op::Alloc { m, size, sem } => json!({"op": "alloc", "m": m, "size": size, "sem": sem.name()}),
             Op::Write { m, src, field, dm, dst } => json!({"op": "write", "m": m, "src": src, "field": field, "dm": dm, "dst": if dst == NULL { Value::Null } else { json!(dst) }}),
             Op::Burst { m, size, count, keep } => json!({"op": "burst", "m": m, "size": size, "count": count, "keep": keep}),
+            Op::EphChain { m, n } => json!({"op": "ephchain", "m": m, "n": n}),
+            Op::Eph { m, key, value } => json!({"op": "eph", "m": m, "key": key, "value": value}),
             Op::Drop { m, slot } => json!({"op": "drop", "m": m, "slot": slot}),
             Op::Gc { m, full } => json!({"op": "gc", "m": m, "full": full}),
             Op::Pin { m, slot } => json!({"op": "pin", "m": m, "slot": slot}),
@@ -48,6 +55,8 @@ impl Op {
             "alloc" => Op::Alloc { m: u("m"), size: v["size"].as_u64().unwrap() as u32, sem: Sem::from_name(v["sem"].as_str().unwrap_or("Default")) },
             "write" => Op::Write { m: u("m"), src: u("src"), field: u("field"), dm: u("dm"), dst: if v["dst"].is_null() { NULL } else { u("dst") } },
             "burst" => Op::Burst { m: u("m"), size: v["size"].as_u64().unwrap() as u32, count: v["count"].as_u64().unwrap() as u16, keep: u("keep") },
+            "ephchain" => Op::EphChain { m: u("m"), n: u("n") },
+            "eph" => Op::Eph { m: u("m"), key: u("key"), value: u("value") },
             "drop" => Op::Drop { m: u("m"), slot: u("slot") },
             "gc" => Op::Gc { m: u("m"), full: v["full"].as_bool().unwrap_or(true) },
             "pin" => Op::Pin { m: u("m"), slot: u("slot") },
@@ -75,6 +84,8 @@ pub struct Alphabet {
     pub gc_kinds: Vec<bool>,
     /// (size, count, keep-every) bursts
     pub bursts: Vec<(u32, u16, u8)>,
+    /// chain lengths offered for `EphChain` (empty = no weak-table ops)
+    pub eph_chains: Vec<u8>,
     pub two_mutators: bool,
     pub pins: bool,
     /// writes may target roots of the other mutator
@@ -107,6 +118,9 @@ impl Abs {
                 for &(size, count, keep) in &a.bursts {
                     v.push(Op::Burst { m, size, count, keep });
                 }
+                for &n in &a.eph_chains {
+                    v.push(Op::EphChain { m, n });
+                }
             }
         }
         for &m in ms {
@@ -122,6 +136,17 @@ impl Abs {
                             if self.occ[dm as usize][dst as usize] {
                                 v.push(Op::Write { m, src, field, dm, dst });
                             }
+                        }
+                    }
+                }
+            }
+        }
+        if !a.eph_chains.is_empty() {
+            for &m in ms {
+                for key in 0..SLOTS as u8 {
+                    for value in 0..SLOTS as u8 {
+                        if self.occ[m as usize][key as usize] && self.occ[m as usize][value as usize] {
+                            v.push(Op::Eph { m, key, value });
                         }
                     }
                 }
@@ -155,13 +180,13 @@ impl Abs {
     }
     fn apply(&mut self, op: &Op) {
         match *op {
-            Op::Alloc { m, .. } | Op::Burst { m, .. } => {
+            Op::Alloc { m, .. } | Op::Burst { m, .. } | Op::EphChain { m, .. } => {
                 let s = self.occ[m as usize].iter().position(|o| !o).unwrap();
                 self.occ[m as usize][s] = true;
                 self.pinned[m as usize][s] = false;
                 self.dirty = true;
             }
-            Op::Write { .. } => self.dirty = true,
+            Op::Write { .. } | Op::Eph { .. } => self.dirty = true,
             Op::Drop { m, slot } => {
                 self.occ[m as usize][slot as usize] = false;
                 self.pinned[m as usize][slot as usize] = false;
@@ -233,6 +258,8 @@ pub struct ProgFacts {
     pub allocs_after_reclaim: u64,
     pub immortal_garbage_checked: u64,
     pub two_mutator_gcs: u64,
+    pub weak_extra_rounds: u64,
+    pub weak_values_died: u64,
 }
 
 pub fn run_program(w: &mut World, p: &[Op]) -> Result<ProgFacts, Fail> {
@@ -250,6 +277,8 @@ pub fn run_program(w: &mut World, p: &[Op]) -> Result<ProgFacts, Fail> {
     facts.allocs_after_reclaim = w.stats.allocs_after_reclaim - s0.allocs_after_reclaim;
     facts.immortal_garbage_checked = w.stats.immortal_checked - s0.immortal_checked;
     facts.two_mutator_gcs = w.stats.two_mutator_gcs - s0.two_mutator_gcs;
+    facts.weak_extra_rounds = w.stats.weak_extra_rounds - s0.weak_extra_rounds;
+    facts.weak_values_died = w.stats.weak_entries_died - s0.weak_entries_died;
     for o in w.shadow.objs.values() {
         if o.pinned && o.age > 0 {
             facts.pinned_survived += 1;
@@ -287,6 +316,24 @@ pub fn step(w: &mut World, op: &Op) -> Result<(), Fail> {
                 }
             }
             w.set_root(m, tmp, None);
+        }
+        Op::EphChain { m, n } => {
+            let m = m as usize;
+            let slot = (0..SLOTS).find(|s| w.root(m, *s).is_none()).expect("ephchain with no empty root slot");
+            let tmp = crate::vm::MAX_ROOTS - 1;
+            let key = w.alloc_obj(m, slot, 40, 2, 8, Sem::Default, false)?.ok_or(("alloc:null".to_string(), "alloc returned null".to_string()))?;
+            let mut prev = key;
+            for _ in 0..n {
+                let v = w.alloc_obj(m, tmp, 40, 2, 8, Sem::Default, false)?.ok_or(("alloc:null".to_string(), "alloc returned null".to_string()))?;
+                w.add_ephemeron(prev, v);
+                prev = v;
+            }
+            w.set_root(m, tmp, None);
+        }
+        Op::Eph { m, key, value } => {
+            let k = w.root(m as usize, key as usize).expect("eph of empty root");
+            let v = w.root(m as usize, value as usize).expect("eph of empty root");
+            w.add_ephemeron(k, v);
         }
         Op::Write { m, src, field, dm, dst } => {
             let s = w.root(m as usize, src as usize).expect("write from empty root");
